@@ -108,8 +108,8 @@ def shards(tier):
 
 def run_shard(spec, ctx):
     if isinstance(spec, tuple) and spec[0] == "fuzz":
-        return M.run_fuzz_shard("C06", spec[1], ctx, 12000)
-    run_given(M.mutated_streams(), body, ctx, ctx.pick(800, 900))
+        return M.run_fuzz_shard("C06", spec[1], ctx, 30000)
+    run_given(M.mutated_streams(), body, ctx, ctx.pick(800, 2000))
 
 
 def replay(data, col):
